@@ -211,6 +211,7 @@ func (s *session) recover() (err error) {
 func (s *session) commit(r *sessionRecord, trivial bool) (err error) {
 	v := s.version()
 	defer v.release()
+	verifNoteBase(s, v)
 
 	// spawn new version based on current version
 	nv := v.spawn(r, trivial)
